@@ -10,6 +10,7 @@ use crate::c03::{Case, SCRATCH, adapt, build_atk, build_swk};
 use crate::enc::NOISES;
 use crate::gad::*;
 use crate::sch::*;
+use crate::sp::sp;
 use poulpy_bin_fhe::bdd_arithmetic::{Cmux, Cswap};
 use poulpy_core::{
     EncryptionLayout, GGLWEEncryptSk, GGLWEExternalProduct, GGLWEToGGSWKeyEncryptSk, GGSWAutomorphism, GGSWEncryptSk, GGSWExpandRows, GGSWExternalProduct, GGSWFromGGLWE, GGSWKeyswitch,
@@ -148,7 +149,10 @@ fn ggsw_cells(g: &GGSW<Vec<u8>>, dnum: usize, cols: usize) -> Vec<VecZnx<Vec<u8>
 pub type GgswP<B> = GGSWPrepared<DeviceBuf<B>, B>;
 
 /// fresh GGSW(m2) in the key layout of the case, prepared, with its exact cell errors
-pub fn build_ggsw<B: FullBackend>(m: &Module<B>, c: &Case, sk: &GLWESecret<Vec<u8>>, m2: &[i64], salt: u64, scratch: &mut ScratchOwned<B>) -> Result<(GgswP<B>, KeyMeta, GGSW<Vec<u8>>), String> {
+pub fn build_ggsw<B: FullBackend>(m: &Module<B>, c: &Case, sk: &GLWESecret<Vec<u8>>, m2: &[i64], salt: u64, scratch: &mut ScratchOwned<B>) -> Result<(GgswP<B>, KeyMeta, GGSW<Vec<u8>>), String>
+where
+    poulpy_hal::layouts::Scratch<B>: poulpy_hal::api::ScratchFromBytes<B>,
+{
     let n = m.n();
     let r = c.rank_out as usize;
     let lay = GGSWLayout { n: Degree(n as u32), base2k: Base2K(c.kb as u32), k: TorusPrecision(c.key_k() as u32), rank: Rank(r as u32), dnum: Dnum(c.dnum as u32), dsize: Dsize(c.dsize as u32) };
@@ -164,7 +168,7 @@ pub fn build_ggsw<B: FullBackend>(m: &Module<B>, c: &Case, sk: &GLWESecret<Vec<u
     let cells = ggsw_cells(&g, c.dnum as usize, r + 1);
     let meta = key_meta(&cells, c.kb as usize, c.dnum as usize, c.dsize as usize, r + 1, r, &s, &ggsw_pts(m2, &s), &ni)?;
     let mut prep = m.ggsw_prepared_alloc_from_infos(&g);
-    m.ggsw_prepare(&mut prep, &g, scratch.borrow());
+    m.ggsw_prepare(&mut prep, &g, sp("ggsw_prepare", m.ggsw_prepare_tmp_bytes(&g), scratch));
     Ok((prep, meta, g))
 }
 
@@ -200,7 +204,10 @@ fn classes(c: &Case, bound: f64, e: f64, m2cls: usize) -> (bool, Vec<&'static st
 // ------------------------------------------------------------------------------------------
 // 1. glwe_external_product(_assign)
 
-fn run_ext<B: FullBackend>(m: &Module<B>, c: &Case) -> Verdict {
+fn run_ext<B: FullBackend>(m: &Module<B>, c: &Case) -> Verdict
+where
+    poulpy_hal::layouts::Scratch<B>: poulpy_hal::api::ScratchFromBytes<B>,
+{
     let n = m.n();
     let mut scratch = pzv_be::dirty_scratch::<B>(SCRATCH);
     let assign = c.op % 2 == 1;
@@ -252,7 +259,10 @@ fn fill_cell(cell: &mut GLWE<&mut [u8]>, cls: VClass, b: usize, n: usize, seed: 
     }
 }
 
-fn run_mat<B: FullBackend>(m: &Module<B>, c: &Case) -> Verdict {
+fn run_mat<B: FullBackend>(m: &Module<B>, c: &Case) -> Verdict
+where
+    poulpy_hal::layouts::Scratch<B>: poulpy_hal::api::ScratchFromBytes<B>,
+{
     let n = m.n();
     let mut scratch = pzv_be::dirty_scratch::<B>(SCRATCH);
     let op = (c.op % 4) as usize;
@@ -293,7 +303,8 @@ fn run_mat<B: FullBackend>(m: &Module<B>, c: &Case) -> Verdict {
             want.push(vals(&mul_limbs(&m2, &glwe_phase_limbs(a.at(i / outer, i % outer).data(), &s)), al.b));
         }
         if assign {
-            m.gglwe_external_product_assign(&mut a, &g, scratch.borrow());
+            let q_ = m.gglwe_external_product_tmp_bytes(&a, &a, &g);
+            m.gglwe_external_product_assign(&mut a, &g, sp("gglwe_external_product_assign", q_, &mut scratch));
             for i in 0..min_dnum * outer {
                 got.push(phase_vals(a.at(i / outer, i % outer).data(), &s, al.b));
             }
@@ -304,7 +315,8 @@ fn run_mat<B: FullBackend>(m: &Module<B>, c: &Case) -> Verdict {
                     fill_cell(&mut res.at_mut(row, col), VClass::Uniform, rl.b, n, c.seed ^ ((row * 8 + col) as u64 + 333));
                 }
             }
-            m.gglwe_external_product(&mut res, &a, &g, scratch.borrow());
+            let q_ = m.gglwe_external_product_tmp_bytes(&res, &a, &g);
+            m.gglwe_external_product(&mut res, &a, &g, sp("gglwe_external_product", q_, &mut scratch));
             for i in 0..min_dnum * outer {
                 got.push(phase_vals(res.at(i / outer, i % outer).data(), &s, rl.b));
             }
@@ -325,7 +337,8 @@ fn run_mat<B: FullBackend>(m: &Module<B>, c: &Case) -> Verdict {
             want.push(vals(&mul_limbs(&m2, &glwe_phase_limbs(a.at(i / outer, i % outer).data(), &s)), al.b));
         }
         if assign {
-            m.ggsw_external_product_assign(&mut a, &g, scratch.borrow());
+            let q_ = m.ggsw_external_product_tmp_bytes(&a, &a, &g);
+            m.ggsw_external_product_assign(&mut a, &g, sp("ggsw_external_product_assign", q_, &mut scratch));
             for i in 0..min_dnum * outer {
                 got.push(phase_vals(a.at(i / outer, i % outer).data(), &s, al.b));
             }
@@ -336,7 +349,8 @@ fn run_mat<B: FullBackend>(m: &Module<B>, c: &Case) -> Verdict {
                     fill_cell(&mut res.at_mut(row, col), VClass::Uniform, rl.b, n, c.seed ^ ((row * 8 + col) as u64 + 333));
                 }
             }
-            m.ggsw_external_product(&mut res, &a, &g, scratch.borrow());
+            let q_ = m.ggsw_external_product_tmp_bytes(&res, &a, &g);
+            m.ggsw_external_product(&mut res, &a, &g, sp("ggsw_external_product", q_, &mut scratch));
             for i in 0..min_dnum * outer {
                 got.push(phase_vals(res.at(i / outer, i % outer).data(), &s, rl.b));
             }
@@ -395,7 +409,10 @@ fn run_mat<B: FullBackend>(m: &Module<B>, c: &Case) -> Verdict {
 
 pub const CMUX_OPS: [&str; 4] = ["cmux", "cmux_assign_neg", "cmux_assign", "cswap"];
 
-fn run_cmux<B: FullBackend>(m: &Module<B>, c: &Case) -> Verdict {
+fn run_cmux<B: FullBackend>(m: &Module<B>, c: &Case) -> Verdict
+where
+    poulpy_hal::layouts::Scratch<B>: poulpy_hal::api::ScratchFromBytes<B>,
+{
     let n = m.n();
     let mut scratch = pzv_be::dirty_scratch::<B>(SCRATCH);
     let op = (c.op % 4) as usize;
@@ -486,7 +503,10 @@ pub const CELL_OPS: [&str; 7] = ["ggsw_encrypt_sk", "ggsw_from_gglwe", "ggsw_exp
 pub type TskP<B> = GGLWEToGGSWKeyPrepared<DeviceBuf<B>, B>;
 
 /// tensor key GGLWE_s(s_i * s_j) in the key layout of the case, with per-i metas
-pub fn build_tsk<B: FullBackend>(m: &Module<B>, c: &Case, sk: &GLWESecret<Vec<u8>>, scratch: &mut ScratchOwned<B>) -> Result<(TskP<B>, Vec<KeyMeta>), String> {
+pub fn build_tsk<B: FullBackend>(m: &Module<B>, c: &Case, sk: &GLWESecret<Vec<u8>>, scratch: &mut ScratchOwned<B>) -> Result<(TskP<B>, Vec<KeyMeta>), String>
+where
+    poulpy_hal::layouts::Scratch<B>: poulpy_hal::api::ScratchFromBytes<B>,
+{
     let n = m.n();
     let r = c.rank_out as usize;
     let lay = GGLWEToGGSWKeyLayout { n: Degree(n as u32), base2k: Base2K(c.kb as u32), k: TorusPrecision(c.key_k() as u32), rank: Rank(r as u32), dnum: Dnum(c.dnum as u32), dsize: Dsize(c.dsize as u32) };
@@ -508,11 +528,14 @@ pub fn build_tsk<B: FullBackend>(m: &Module<B>, c: &Case, sk: &GLWESecret<Vec<u8
         metas.push(key_meta(&cells, c.kb as usize, c.dnum as usize, c.dsize as usize, r, r, &s, &pts, &ni).map_err(|e| format!("tensor key s_{i}*s_j: {e}"))?);
     }
     let mut prep = m.gglwe_to_ggsw_key_prepared_alloc_from_infos(&key);
-    m.gglwe_to_ggsw_key_prepare(&mut prep, &key, scratch.borrow());
+    m.gglwe_to_ggsw_key_prepare(&mut prep, &key, sp("gglwe_to_ggsw_key_prepare", m.gglwe_to_ggsw_key_prepare_tmp_bytes(&key), scratch));
     Ok((prep, metas))
 }
 
-fn run_cells<B: FullBackend>(m: &Module<B>, c: &Case) -> Verdict {
+fn run_cells<B: FullBackend>(m: &Module<B>, c: &Case) -> Verdict
+where
+    poulpy_hal::layouts::Scratch<B>: poulpy_hal::api::ScratchFromBytes<B>,
+{
     let n = m.n();
     let mut scratch = pzv_be::dirty_scratch::<B>(SCRATCH);
     let op = (c.op % 7) as usize;
@@ -577,7 +600,8 @@ fn run_cells<B: FullBackend>(m: &Module<B>, c: &Case) -> Verdict {
             col0_bound = errs.iter().map(|e| e[0].1 + rl.unit() * (1.0 + so_l1 as f64)).collect();
             res_obj = GGSW::alloc(nd, bb, TorusPrecision((rl.size * rl.b) as u32), Rank(r as u32), Dnum(g_dnum as u32), dd);
             scramble(&mut res_obj, g_dnum, r + 1, rl.b, n, c.seed);
-            m.ggsw_from_gglwe(&mut res_obj, &a, &tsk, scratch.borrow());
+            let q_ = m.ggsw_from_gglwe_tmp_bytes(&res_obj, &tsk);
+            m.ggsw_from_gglwe(&mut res_obj, &a, &tsk, sp("ggsw_from_gglwe", q_, &mut scratch));
             out_lay = rl;
             out_dnum = g_dnum;
         }
@@ -625,7 +649,8 @@ fn run_cells<B: FullBackend>(m: &Module<B>, c: &Case) -> Verdict {
                         out_lay = rl;
                         out_dnum = r_dnum;
                     } else {
-                        m.ggsw_keyswitch_assign(&mut a, &key, &tsk, scratch.borrow());
+                        let q_ = m.ggsw_keyswitch_tmp_bytes(&a, &a, &key, &tsk);
+                        m.ggsw_keyswitch_assign(&mut a, &key, &tsk, sp("ggsw_keyswitch_assign", q_, &mut scratch));
                         res_obj = a;
                         out_lay = al;
                         out_dnum = g_dnum;
@@ -642,11 +667,13 @@ fn run_cells<B: FullBackend>(m: &Module<B>, c: &Case) -> Verdict {
                     if op == 5 {
                         res_obj = GGSW::alloc(nd, bb, TorusPrecision((rl.size * rl.b) as u32), Rank(r as u32), Dnum(r_dnum as u32), dd);
                         scramble(&mut res_obj, r_dnum, r + 1, rl.b, n, c.seed);
-                        m.ggsw_automorphism(&mut res_obj, &a, &key, &tsk, scratch.borrow());
+                        let q_ = m.ggsw_automorphism_tmp_bytes(&res_obj, &a, &key, &tsk);
+                        m.ggsw_automorphism(&mut res_obj, &a, &key, &tsk, sp("ggsw_automorphism", q_, &mut scratch));
                         out_lay = rl;
                         out_dnum = r_dnum;
                     } else {
-                        m.ggsw_automorphism_assign(&mut a, &key, &tsk, scratch.borrow());
+                        let q_ = m.ggsw_automorphism_tmp_bytes(&a, &a, &key, &tsk);
+                        m.ggsw_automorphism_assign(&mut a, &key, &tsk, sp("ggsw_automorphism_assign", q_, &mut scratch));
                         res_obj = a;
                         out_lay = al;
                         out_dnum = g_dnum;
